@@ -296,11 +296,14 @@ def asmEntries (pol : Nat) (rec : Store → Except Err Store) : List NVar → Ex
         | .ok vs' => .ok (v' :: vs')
 
 /-- `case *uefi.NVarStore` of the Assemble visitor, after the children: entries, erased gap,
-    reversed GUID table.  `make([]byte, GUIDStoreOffset-FreeSpaceOffset)` panics when negative. -/
+    reversed GUID table. -/
 def layout (pol : Nat) (s : Store) (es : List NVar) : Except Err Store :=
   let data := es.flatMap (·.buf)
   let fso := data.length
-  if s.length < 16 * s.guidStore.length + fso then .error .panic
+  -- `GUIDStoreOffset = Length - 16·len(GUIDStore)` is a uint64: it wraps when the table is longer than the
+  -- store, and `make` then panics; otherwise (fix c8599a9) entries overlapping the table are an error
+  if s.length < 16 * s.guidStore.length then .error .panic
+  else if s.length - 16 * s.guidStore.length < fso then .error .asm
   else
     let gso := s.length - 16 * s.guidStore.length
     .ok { s with entries := es, fso := fso, gso := gso,
